@@ -52,6 +52,9 @@ SHAPES = {
     # payload members named like the scratch files tools put next to a file they are writing
     "DT": [["d", "x.bin"], ["d", "x.bin.part"], ["d", "x.bin.tmp"], ["d", "x.bin~"], ["d", ".x.bin.swp"], ["d", "x.bin.bak"],
            ["d", "x.bin.new"], ["d", "x.bin.partial"], ["d", "x.bin.!qB"], ["d", "x.bin.crdownload"], ["d", "x.bin.1"], ["d", "x.bin.old"]],
+    # files that desktop environments drop into directories, next to real members
+    "DCL": [["Thumbs.db"], ["a.bin"], ["b.bin"], ["c.bin"], ["sub", ".DS_Store"], ["sub", "x.bin"], ["sub", "y.bin"], ["sub", "z.bin"],
+            ["desktop.ini"], ["zz", ".directory"], ["zz", "k"], ["zz", "l"], ["zz", "m"]],
     "DW": [["w%03d" % k] if k % 5 else ["grp%d" % (k // 50), "w%03d" % k] for k in range(200)],    # hundreds of files
     "DDEEP": [["n%d" % d for d in range(40)] + ["leaf.bin"], ["n%d" % d for d in range(20)] + ["mid.bin"], ["top.bin"]],
     "DM": [["m%02d" % k] if k % 3 else ["g%d" % (k // 3), "m%02d" % k] for k in range(14)],   # many files
@@ -525,7 +528,7 @@ class C08(CreateProp):
             v = (1, 2, 3)[b % 3]
             P = rng.choice(plens("quick"))
             A = alphabet(P)
-            sh = ["D3", "D4", "D2n", "S1", "D2", "DN", "DC", "DC"][b % 8] if b < 16 else rng.choice(["D3", "D4", "D2n", "S1", "D2", "DN", "DC"])
+            sh = ["D3", "D4", "D2n", "S1", "D2", "DN", "DC", "DCL"][b % 8] if b < 16 else rng.choice(["D3", "D4", "D2n", "S1", "D2", "DN", "DC", "DCL"])
             k = 1 if sh == "S1" else len(SHAPES[sh])
             sizes = tuple(rng.choice(A) for _ in range(k))
             if sum(sizes) == 0:
@@ -570,6 +573,9 @@ class C08(CreateProp):
             if cr != "cli":     # one creator object used twice / a second object for another payload used in between
                 members.append(dict(base, reuse="twice"))
                 members.append(dict(base, reuse="other_first", opts=o1, outer="trackers"))
+            # brand-new interpreters with other string-hash seeds: nothing may depend on set / dict iteration order
+            for hs in (1, 2, 12345):
+                members.append(dict(base, hashseed=hs))
             # the same payload with other permission bits (executable, read-only ...) and old time stamps
             members.append(dict(base, file_meta=1 + b))
             members.append(dict(base, file_meta=3 + b, copy=True))
@@ -595,7 +601,7 @@ class C08(CreateProp):
     def nontrivial(self, case):
         var = tuple(sorted((k, str(v)) for k, v in case.items()
                            if k in ("spelling", "cwd_mode", "copy", "enum_perm", "clock", "progress", "outer", "outname", "pre", "out_inside",
-                                    "file_meta", "swallowed", "reuse")))
+                                    "file_meta", "swallowed", "reuse", "hashseed")))
         if not var or var == (("outer", "plain"),):
             return None
         return (case["group"], var)
